@@ -35,6 +35,9 @@ def generate(tier, seed):
     n = 60 if tier == "quick" else 2000
     for k in range(n):
         cases.append({"kind": "models", "seed": "%d:m:%d" % (seed, k), "cost": 25})
+    # two cysteines with their sulfurs exactly 2.5 A apart on exactly representable coordinates: no bridge
+    for k in range(12 if tier == "quick" else 300):
+        cases.append({"kind": "cystie", "seed": "%d:ct:%d" % (seed, k), "cost": 3})
     # every fragment of the library (each ligand group type, DNA residues) next to real protein
     from .. import fragments
     reps = 2 if tier == "quick" else 30
@@ -185,6 +188,11 @@ def run_case(case, tier):
         recs = sources.repo_recs(case["file"])
         desc["file"] = case["file"]
         optset = case["optset"]
+    elif case["kind"] == "cystie":
+        from .c11 import two_cys_at_exactly_2p5
+        recs = two_cys_at_exactly_2p5(rng)
+        optset = "none"
+        classes.append("sulfurs-at-exactly-2.5A")
     elif case["kind"] == "models":
         # several MODELs with point mutants / missing atoms, residues or chains (no alt-loc tags)
         from .. import multiconf
@@ -223,7 +231,7 @@ def run_case(case, tier):
                 r = r.copy()
                 r.alt = " "
                 recs[i] = r
-        if case["kind"] not in ("fragment", "models"):
+        if case["kind"] not in ("fragment", "models", "cystie"):
             recs = edit_layout(recs, rng, desc)
             optset = None
     opts, optset, chains, tlist = pick_options(rng, recs, optset)
